@@ -63,6 +63,29 @@ T.update({
  'C20_b': dict(change='utils/utils.go ConstantTimeCmp: diff |= d became diff ^= d', needs='a > b with per-byte differences that cancel under xor', strengthened='no'),
 })
 
+T.update({
+ 'C01_c': dict(change='sm2/sm2.go SignHashed: the len(rkBytes) == 32 guard before the r+k == n comparison removed', needs='r + k < 2^248 (both with a leading zero byte, ~2^-17): signing panics', strengthened='YES: the comparison contract did not cover a 33-byte operand (check aborted); prefix-of-longer-encoding support added; Sign.panic now needs a feasible path and a solver-built replay (nonce strategies small/free added)'),
+ 'C02_c': dict(change='sm2/sm2.go SignHashed: d+1 padded by len(priv) (same edit as C01_b, proposed independently for C02)', needs='private key encoding with leading zero bytes or a short all-ones key: s is not the standard value', strengthened='YES: special-vector replay (keys with leading zero bytes, short and all-ones encodings) and a time budget added to C02; the symbolic phase is slow on this tree (data-dependent copy lengths)'),
+ 'C03_c': dict(change='sm2/internal/fiat/sm2_element.go SetBytes bound compares with n-1 instead of p-1', needs='public key with a coordinate in [n, p-1] (2^-128): valid signatures rejected', strengthened='YES: C03 trusted the decoding contract; the real coordinate-decoding obligation and a solved family "key with x in [n,p)" (signature built without the private key) added'),
+ 'C04_c': dict(change='sm3/sm3.go Sum finalises the receiver in place and restores only h, nx, len', needs='Sum with 56..63 bytes buffered, then another Sum/Write', strengthened='no'),
+ 'C05_c': dict(change='sm4/sm4.go ssX2: high-lane s3 lookup indexed with the low lane byte', needs='portable two-block path with two different blocks', strengthened='no'),
+ 'C06_c': dict(change='sm4/gcm_amd64.s cryptoBlocksAsm tail: CMPQ len,$0 became $1', needs='plaintext length = 1 mod 16', strengthened='no'),
+ 'C07_c': dict(change='sm4/gcm_amd64.s CalculateSPre: JE withRemain became JE endSPre after the 4-way aad loop', needs='len(aad) >= 128, (len/16)%4 == 0, len%16 != 0: aad tail not authenticated', strengthened='YES: C07 had only short aad lengths; 16 aad length classes up to 271 added'),
+ 'C08_c': dict(change='utils/utils.go ConstantTimeCmp: early return -1 when a[0] < b[0]', needs='secret whose top byte is below 0xFF vs not', strengthened='YES: the verdict-branch exemption accepted an early constant return; it now also requires that the other arm does no further work, or that the returning arm is the API reject outcome'),
+ 'C09_c': dict(change='sm4/asm_amd64.s expandKeyAsm: S-box by VPGATHERDD from the Go table sbox indexed by key-derived bytes', needs='any key: 128 key-indexed loads per key expansion', strengthened='YES (engine): Go-global operands, VPGATHERDD, VPMOVZXBD, VPMOVDB and mask-register logic added to the listing interpreter'),
+ 'C10_c': dict(change='sm4/helper_amd64.s needExpand: SUBQ arrayLen removed (compares cap instead of cap-len)', needs='non-empty dst with cap-len < needed <= cap: Seal/Open panic', strengthened='no'),
+ 'C11_c': dict(change='sm4/gcm_amd64.s: Seal stores the tag 16 bytes wide directly to dst', needs='tag size 12..15 and dst ending exactly at the end of its capacity', strengthened='YES: the out-of-range store was found from the listing but had no replay template; Seal into a destination that ends at a PROT_NONE page added'),
+ 'C12_c': dict(change='sm2/sm2.go DerivePublic tests the key for literal zero instead of the point for infinity', needs='d = n: panic', strengthened='no'),
+ 'C13_c': dict(change='sm2/sm2.go ZA hashes big.Int(x).Bytes() (leading zero bytes of coordinates dropped)', needs='public key coordinate with a leading zero byte', strengthened='YES: the hash model refused inputs of data-dependent length (check aborted); late case split on the encoding length, replays with leading-zero coordinates and a time budget added'),
+ 'C14_c': dict(change='sm2/internal/sm2_curve.go fixed-base comb: remainder step guarded by remainder > 1', needs='5_3_17 parameter set and an odd scalar', strengthened='no'),
+ 'C15_c': dict(change='sm2/internal/sm2_point.go bytes(): infinity early return only on the fast path', needs='Bytes() of the point at infinity', strengthened='no'),
+ 'C16_c': dict(change='sm2/internal/fiat/fiat_sm2_64.go sm2Sub: low-limb add-back rewritten as x1-(x9&1)', needs='a < b with equal low Montgomery limbs (2^-64)', strengthened='no'),
+ 'C17_c': dict(change='sm3/sm3.go: message schedule buffer w of cf hoisted to a package-level variable', needs='two goroutines hashing at once', strengthened='no'),
+ 'C18_c': dict(change='sm4/gcm_amd64.s Shuffle1 data: entry 4 changed from 0x03 to 0x0b', needs='additional data of 2 MiB or more', strengthened='no'),
+ 'C19_c': dict(change='sm2/sm2.go GenerateKey: range test moved before the read-error test', needs='reader failing 1..31 bytes into a draw', strengthened='no'),
+ 'C20_c': dict(change='utils/utils.go DecomposeNAF guard: w > 7 became w >= 7', needs='w = 7: panic', strengthened='YES: a panic in the concrete validation section aborted the check and discarded earlier results; guarded_main now keeps what was established, the validation reports panics with a replay'),
+})
+
 for name, t in sorted(T.items()):
     d = os.path.join(S, name)
     if not os.path.isdir(d):
